@@ -12,8 +12,8 @@
      (A) on such a path the whole-document walk of _update_node (recurse) leaves
          every step of the path in place and puts the new node where w was. *)
 From Coq Require Import String List ZArith NArith Bool Lia Arith Permutation.
-From YP Require Import Outcome PyStr PyVal Doc Searches Mutate Create C03spec C04spec C03e2e C03set
-  C04lists C04delete C04plan C09create C09createP C09doc C03inv C03invCreate C03guard C03rename C03history2 C09setguard PyValOrder.
+From YP Require Import Outcome PyStr PyVal Doc Searches Mutate Create History C03spec C04spec C03hist C03e2e C03set
+  C03history C04lists C04delete C04plan C09create C09createP C09doc C03inv C03invCreate C03guard C03rename C03history2 C09setguard PyValOrder.
 Import ListNotations.
 
 (* the parentref the walk puts into the coordinate of the child the segment names *)
@@ -417,3 +417,165 @@ Proof.
       * apply keys_avoid_1. exact Hka.
     + rewrite walk_unfold, Ef in H. discriminate.
 Qed.
+
+(* ---------------- the composition ---------------- *)
+Lemma node_oid_le_max : forall d, (node_oid d <= max_oid d)%N.
+Proof.
+  destruct d as [i v|i kvs|i els|i els]; unfold node_oid; simpl; try lia.
+  - induction kvs as [|kv r IH]; simpl; lia.
+  - induction els as [|x r IH]; simpl; lia.
+  - induction els as [|x r IH]; simpl; lia.
+Qed.
+
+Lemma max_oid_map_ge : forall i kvs kv, In kv kvs ->
+  (max_oid (fst kv) <= max_oid (NMap i kvs) /\ max_oid (snd kv) <= max_oid (NMap i kvs))%N.
+Proof.
+  intros i kvs kv H. simpl. induction kvs as [|kv0 r IH]; simpl in *; [contradiction|].
+  destruct H as [->|H]; [lia|]. specialize (IH H). lia.
+Qed.
+
+Lemma max_oid_seq_ge : forall i els x, In x els -> (max_oid x <= max_oid (NSeq i els))%N.
+Proof.
+  intros i els x H. simpl. induction els as [|y r IH]; simpl in *; [contradiction|].
+  destruct H as [->|H]; [lia|]. specialize (IH H). lia.
+Qed.
+
+Lemma keys_avoid_fresh : forall d x, (max_oid d < x)%N -> keys_avoid x d = true.
+Proof.
+  induction d using node_ind'; intros x Hx; simpl; auto.
+  - apply forallb_forall. intros kv Hkv. rewrite Forall_forall in H.
+    destruct (max_oid_map_ge i kvs kv Hkv) as [M1 M2]. apply andb_true_iff. split.
+    + apply negb_true_iff. apply andb_false_iff. left. apply N.eqb_neq.
+      pose proof (node_oid_le_max (fst kv)). lia.
+    + apply (proj2 (H kv Hkv)). lia.
+  - apply forallb_forall. intros y Hy. rewrite Forall_forall in H. apply (H y Hy).
+    pose proof (max_oid_seq_ge i els y Hy). lia.
+Qed.
+
+Lemma seg_child_is_child : forall n s c, seg_child n s = Some c -> is_child c n.
+Proof.
+  intros n s c H. unfold seg_child in H. destruct (seg_ref n s) as [r|] eqn:Er; [|discriminate].
+  destruct n as [i v|i kvs|i els|i els]; simpl in *.
+  - destruct s; discriminate.
+  - destruct s as [k ko|z]; [|discriminate]. inversion Er; subst r. simpl in H.
+    rewrite find_assoc_key in H. destruct (find (key_is (PStr k)) kvs) as [kv|] eqn:Ef; [|discriminate].
+    simpl in H. inversion H; subst. exists kv. split; auto. apply (find_some _ _ Ef).
+  - destruct (seg_int s) as [z|]; [|discriminate].
+    destruct (0 <=? z)%Z; [|destruct (0 <=? z + Z.of_nat (length els))%Z; [|discriminate]];
+      inversion Er; subst r; simpl in H; eapply nth_error_In; eauto.
+  - destruct s as [k ko|z]; [|discriminate]. inversion Er; subst r. simpl in H.
+    rewrite find_find_member in H. apply find_some in H. destruct H as [Hin Hm]. split; auto.
+    destruct c; simpl in *; auto; discriminate.
+Qed.
+
+Lemma gpath_last : forall roid w pc D segs n,
+  gpath roid w pc n segs -> in_doc n D ->
+  exists p s, in_doc p D /\ seg_child p s = Some w /\ pc = mkpc (Some (node_oid p)) (seg_pref p s) /\
+              is_set p = false /\ path_last n segs = Some (node_oid p, upd_ref p s).
+Proof.
+  intros roid w pc D. induction segs as [|s rest IH]; intros n Hg Hin; [destruct Hg|].
+  destruct Hg as [Hn [Hk [Hset [c [Hc Hrest]]]]].
+  destruct rest as [|s2 rest2].
+  - destruct Hrest as [-> ->]. exists n, s. repeat split; auto.
+  - destruct (IH c Hrest) as [p [s' [H1 [H2 [H3 [H4 H5]]]]]].
+    { eapply in_doc_child; eauto. eapply seg_child_is_child; eauto. }
+    exists p, s'. repeat split; auto. cbn [path_last]. rewrite Hc. exact H5.
+Qed.
+
+Lemma seg_child_get_change : forall p s w,
+  seg_child p s = Some w -> is_set p = false -> get_change p (upd_ref p s) = ROk (Some w).
+Proof.
+  intros p s w H Hs. unfold seg_child in H. destruct (seg_ref p s) as [r|] eqn:Er; [|discriminate].
+  destruct p as [i v|i kvs|i els|i els]; try discriminate.
+  - destruct s as [k ko|z]; [|discriminate]. simpl in Er. inversion Er; subst r. simpl in H.
+    unfold upd_ref, seg_pref, norm_ref. simpl. rewrite find_assoc_key in H.
+    destruct (find (key_is (PStr k)) kvs) as [kv|]; [|discriminate]. simpl in H. inversion H; subst. reflexivity.
+  - unfold upd_ref, seg_pref. simpl in Er. destruct (seg_int s) as [z|]; [|discriminate].
+    unfold norm_ref, get_change. simpl as_index.
+    destruct (0 <=? z)%Z eqn:E0.
+    + inversion Er; subst r. simpl in H. apply Z.leb_le in E0.
+      assert (E : (z <? 0)%Z = false) by (apply Z.ltb_ge; lia).
+      rewrite E. cbn [as_index]. cbv beta iota zeta. rewrite E.
+      assert (Hlt : (Z.to_nat z < length els)%nat) by (apply nth_error_Some; congruence).
+      replace ((0 <=? z) && (z <? Z.of_nat (length els)))%Z with true
+        by (symmetry; apply andb_true_iff; split; [apply Z.leb_le|apply Z.ltb_lt]; lia).
+      rewrite H. reflexivity.
+    + destruct (0 <=? z + Z.of_nat (length els))%Z eqn:E1; [|discriminate].
+      inversion Er; subst r. simpl in H. apply Z.leb_gt in E0. apply Z.leb_le in E1.
+      assert (E : (z <? 0)%Z = true) by (apply Z.ltb_lt; lia).
+      assert (E' : (z + Z.of_nat (length els) <? 0)%Z = false) by (apply Z.ltb_ge; lia).
+      rewrite E. cbn [as_index]. cbv beta iota zeta. rewrite E'.
+      assert (Hlt : (Z.to_nat (z + Z.of_nat (length els)) < length els)%nat) by (apply nth_error_Some; congruence).
+      replace ((0 <=? z + Z.of_nat (length els)) && (z + Z.of_nat (length els) <? Z.of_nat (length els)))%Z with true
+        by (symmetry; apply andb_true_iff; split; [apply Z.leb_le|apply Z.ltb_lt]; lia).
+      rewrite H. reflexivity.
+Qed.
+
+Lemma find_in_doc_l : forall d p o, wf_doc d -> in_doc p d -> coid p = Some o -> find_obj o d = Some p.
+Proof.
+  intros d p o Hwf Hin Ho. specialize (Hin o Ho). rewrite find_obj_hd.
+  destruct (objs o d) as [|a t] eqn:E; [contradiction|]. simpl.
+  f_equal. apply (objs_unique o d p a Hwf); rewrite E; [exact Hin|left; reflexivity].
+Qed.
+
+Section Compose.
+Variable lit : string -> outcome litres.
+Variable fl : string -> outcome flres.
+
+(* SET MODE: set_value(path, value, mustexist=False) on a straight path that does not exist completely.
+   Walking the path in the final document reaches the node make_new_node built: it holds the value in
+   the requested format. *)
+Theorem create_set_composes : forall segs value fmt vo d st',
+  doc_inv d = true -> creates d segs = true -> vo_ok d vo = true ->
+  create_set lit fl segs value fmt vo d = SDone st' ->
+  exists nn i, conv lit fl fmt value = ROk nn /\ resolve (fst st') segs = Some (NLeaf i (nn_val nn)).
+Proof.
+  intros segs value fmt vo d st' Hinv Hcr Hvo H.
+  rewrite (create_set_unfold lit fl) in H.
+  destruct (create_walk lit segs value vo d) as [vo' [[[d1 pc] n1]|e]] eqn:Ew; [|discriminate].
+  destruct (create_walk_inv lit _ _ _ _ _ _ _ _ Hinv Ew) as [Hinv1 _].
+  apply doc_inv_iff in Hinv. destruct Hinv as [Hl Hwf].
+  apply doc_inv_iff in Hinv1. destruct Hinv1 as [Hl1 Hwf1].
+  unfold create_walk in Ew. injection Ew as Evo Ew. subst vo'.
+  set (vo' := fst (sv_start vo (init_state d))) in *.
+  set (next := snd (snd (sv_start vo (init_state d)))) in *.
+  assert (Hbounds : (vo' < next)%N /\
+            forall x, (next <= x)%N \/ x = vo' -> ~ In x (coids d) /\ keys_avoid x d = true).
+  { unfold vo', next, init_state. destruct vo as [o|]; simpl in *.
+    - apply andb_true_iff in Hvo. destruct Hvo as [Hvo Hka]. apply andb_true_iff in Hvo. destruct Hvo as [Hle Hnc].
+      apply N.leb_le in Hle. split; [lia|]. intros x [Hx| ->].
+      + split; [intro Hin; pose proof (coids_le_max d x Hin); lia|apply keys_avoid_fresh; lia].
+      + split; auto. intro Hin. apply negb_true_iff in Hnc.
+        assert (existsb (N.eqb o) (coids d) = true) by (apply existsb_exists; exists o; split; auto; apply N.eqb_refl).
+        congruence.
+    - split; [lia|]. intros x Hx.
+      assert (max_oid d < x)%N by (destruct Hx; lia).
+      split; [intro Hin; pose proof (coids_le_max d x Hin); lia|apply keys_avoid_fresh; lia]. }
+  destruct Hbounds as [Hlt Hok].
+  destruct (walk_gpath lit segs d (mkpc None PNone) d next vo' value d1 pc n1 Hwf Ew Hcr Hlt Hok)
+    as [o [c' [Ho [Hd [w [f [Hw [Hf Hgp]]]]]]]].
+  rewrite put_obj_putf in Hd. rewrite <- Hd in Hgp.
+  assert (Hin1 : in_doc d1 d1) by (intros o' Ho'; apply objs_self; exact Ho').
+  destruct (gpath_last _ _ _ d1 _ _ Hgp Hin1) as [p [s [Hp [Hsc [Hpc [Hset Hlast]]]]]].
+  assert (Hcp : coid p = Some (node_oid p)).
+  { destruct p as [pi pv|pi kvs|pi els|pi els]; try reflexivity. unfold seg_child in Hsc. destruct s; discriminate. }
+  pose proof (find_in_doc_l d1 p (node_oid p) Hwf1 Hp Hcp) as Hfind.
+  pose proof (seg_child_get_change p s w Hsc Hset) as Hget.
+  (* the one action *)
+  cbn [run_actions] in H.
+  destruct (apply_action lit fl value vo' (mkact pc false fmt) (d1, n1)) as [st1|e] eqn:Ea; [|discriminate].
+  inversion H; subst st'. clear H.
+  unfold apply_action in Ea. cbn [a_name a_pc a_fmt] in Ea.
+  assert (Eu : update_node lit fl pc value fmt vo' (d1, n1) = ROk st1).
+  { destruct (update_node lit fl pc value fmt vo' (d1, n1)) as [s1|e]; auto.
+    destruct e; try discriminate. destruct c; discriminate. }
+  clear Ea.
+  unfold update_node in Eu. rewrite Hpc in Eu. simpl in Eu. rewrite Hfind in Eu.
+  change (norm_ref p (seg_pref p s)) with (upd_ref p s) in Eu. rewrite Hget in Eu. simpl in Eu.
+  destruct (make_new_node lit fl (Some (node_info w)) value fmt n1 vo') as [new|e] eqn:Em; simpl in Eu; [|discriminate].
+  destruct (key_conflict (node_oid w) new d1); [discriminate|]. inversion Eu; subst st1. simpl.
+  destruct (make_new_node_shape _ _ _ _ _ _ _ _ Em) as [nn [Hconv [i [-> _]]]].
+  exists nn, i. split; auto.
+  apply (recurse_path (node_oid w) w pc (NLeaf i (nn_val nn)) eq_refl segs d1); auto.
+Qed.
+End Compose.
